@@ -1011,6 +1011,15 @@ impl<'a, 'b> G<'a, 'b> {
                 _ => format!("{{\n  function defineComponent(s) {{ return s; }}\n  g(defineComponent({setup}{opts}));\n}}"),
             };
         }
+        if self.c.chance(1, 10) {
+            // degenerate argument lists: nothing to augment
+            self.f.ctx("defineComponent-degenerate-arguments");
+            return match self.c.pick(3) {
+                0 => format!("export const {name} = {callee}();"),
+                1 => format!("export const {name} = {callee}(...xs);"),
+                _ => format!("export const {name} = {callee}(o, o, o);"),
+            };
+        }
         match self.c.pick(4) {
             0 => format!("export const {name} = {callee}({setup}{opts});"),
             1 => format!("export default {callee}({setup}{opts});"),
